@@ -152,8 +152,9 @@ def h_transform(ctx):
             gd = uni("dst")
     masked = p.get("masked", False)
     t0 = hlib.T0
-    out = fm.Output(name="out", info=fm.Info(time=t0, grid=gs, units="m"))
-    inp = fm.Input(name="in", info=fm.Info(time=t0, grid=gd, units="m"))
+    static = p.get("static", False)
+    out = fm.Output(name="out", info=fm.Info(time=None if static else t0, grid=gs, units="m"), static=static)
+    inp = fm.Input(name="in", info=fm.Info(time=None if static else t0, grid=gd, units="m"), static=static)
     out >> inp
     inp.ping()
     inp.exchange_info()
@@ -168,43 +169,48 @@ def h_transform(ctx):
         for q, idx in enumerate(np.ndindex(*shp)):
             X[idx] = flat[q]
     with_time = p.get("with_time", True)
-    out.push_data(X[np.newaxis, ...] if with_time else X, t0)
+    out.push_data(X[np.newaxis, ...] if with_time else X, None if static else t0)
     same_layout = lay["src"] == lay["dst"]
     if same_layout:
         ctx.check(inp._transform is None, "equal-layouts-not-passed-through")
-    try:
-        Y = inp.pull_data(t0)
-    except (symx.PathAbort, symx.SymbolicLeak, symx.HarnessError):
-        raise
-    except Exception as e:  # pylint: disable=broad-except
-        ctx.log("exc", type(e).__name__)
-        ctx.fail("conversion-between-compatible-layouts-fails",
-                 {"sig": f"{type(e).__name__}:src_rev={lay['src'][0]}:dst_rev={lay['dst'][0]}",
-                  "error": str(e)[:160]})
-        return
-    ctx.cover("delivered")
-    ctx.check(tuple(Y.shape) == (1,) + tuple(gd.data_shape), "delivered-shape", {"sig": str(Y.shape)})
-    Ym = Y.magnitude
-    src_of = {}
-    for i in np.ndindex(*gs.data_shape):
-        src_of[_coord_index(gs, i)] = i
-    da_s, da_d = gs.data_axes, gd.data_axes
-    for j in np.ndindex(*gd.data_shape):
-        i = src_of[_coord_index(gd, j)]
-        # same physical location according to the grids' own coordinate functions
-        ps = [da_s[a][i[a]] for a in range(d)]
-        pd = [da_d[a][j[a]] for a in range(d)]
-        ps = ps[::-1] if gs.axes_reversed else ps
-        pd = pd[::-1] if gd.axes_reversed else pd
-        ctx.check(bool(np.allclose(ps, pd)), "spec-location-mismatch", {"sig": "oracle"})
-        if masked:
-            ctx.check(bool(np.ma.getmaskarray(Ym)[(0,) + j] == msk[i]), "mask-at-wrong-location",
-                      {"sig": f"src_rev={lay['src'][0]}:dst_rev={lay['dst'][0]}"})
-            if not msk[i]:
-                ctx.check(float(np.ma.getdata(Ym)[(0,) + j]) == float(vals[i]), "value-at-wrong-location")
-        else:
-            ctx.check(ctx.eq(Ym[(0,) + j], X[i]), "value-at-wrong-location",
-                      {"sig": f"src_rev={lay['src'][0]}:dst_rev={lay['dst'][0]}"})
+    # static links cache the delivered data: every pull (not only the first) must be the converted data
+    for pull_no in range(p.get("pulls", 1)):
+        try:
+            Y = inp.pull_data(t0 + hlib.DAY * pull_no)
+        except (symx.PathAbort, symx.SymbolicLeak, symx.HarnessError):
+            raise
+        except Exception as e:  # pylint: disable=broad-except
+            ctx.log("exc", type(e).__name__)
+            ctx.fail("conversion-between-compatible-layouts-fails",
+                     {"sig": f"{type(e).__name__}:src_rev={lay['src'][0]}:dst_rev={lay['dst'][0]}:pull{pull_no}",
+                      "error": str(e)[:160]})
+            return
+        ctx.cover("delivered")
+        if tuple(Y.shape) != (1,) + tuple(gd.data_shape):
+            ctx.fail("delivered-shape", {"sig": f"{Y.shape}:pull{pull_no}"})
+            return
+        ctx.check(True, "delivered-shape")
+        Ym = Y.magnitude
+        src_of = {}
+        for i in np.ndindex(*gs.data_shape):
+            src_of[_coord_index(gs, i)] = i
+        da_s, da_d = gs.data_axes, gd.data_axes
+        for j in np.ndindex(*gd.data_shape):
+            i = src_of[_coord_index(gd, j)]
+            # same physical location according to the grids' own coordinate functions
+            ps = [da_s[a][i[a]] for a in range(d)]
+            pd = [da_d[a][j[a]] for a in range(d)]
+            ps = ps[::-1] if gs.axes_reversed else ps
+            pd = pd[::-1] if gd.axes_reversed else pd
+            ctx.check(bool(np.allclose(ps, pd)), "spec-location-mismatch", {"sig": "oracle"})
+            if masked:
+                ctx.check(bool(np.ma.getmaskarray(Ym)[(0,) + j] == msk[i]), "mask-at-wrong-location",
+                          {"sig": f"src_rev={lay['src'][0]}:dst_rev={lay['dst'][0]}"})
+                if not msk[i]:
+                    ctx.check(float(np.ma.getdata(Ym)[(0,) + j]) == float(vals[i]), "value-at-wrong-location")
+            else:
+                ctx.check(ctx.eq(Ym[(0,) + j], X[i]), "value-at-wrong-location",
+                          {"sig": f"src_rev={lay['src'][0]}:dst_rev={lay['dst'][0]}:pull{pull_no}"})
 
 
 def h_compat(ctx):
@@ -310,6 +316,14 @@ def families(tier):
                        f"per-axis direction on both sides; cells and points; "
                        f"{'concrete masked payload' if masked else 'symbolic real payload'}; data with leading time axis",
                 must_cover=["delivered"]))
+    for s_, t_, dims in ([("uniform", "uniform", (3, 3))] if q else
+                         [("uniform", "uniform", (3, 3)), ("uniform", "esri", (3, 4)), ("uniform", "uniform", (4,))]):
+        fams.append(dict(
+            name=f"transform_static:{s_}->{t_}:{'x'.join(map(str, dims))}", ref="vf.props.c15:h_transform",
+            params={"src": s_, "dst": t_, "dims": list(dims), "masked": False, "static": True, "pulls": 2},
+            bounds=f"STATIC output and input, source {s_} / target {t_} grid with {dims} points, all layout flags on "
+                   f"both sides, symbolic payload; the input is pulled twice (the second pull is served from its cache)",
+            must_cover=["delivered"]))
     for dims in ([(3, 4)] if q else [(3, 4), (4,), (2, 3, 2)]):
         fams.append(dict(name=f"compat:{'x'.join(map(str, dims))}", ref="vf.props.c15:h_compat",
                          params={"dims": list(dims)},
